@@ -28,6 +28,12 @@ def r1(chk):
     if len(params) != 3:
         raise Inconclusive("replace_tilde_or_at_in_expr: expected (input, at, tilde)")
     inp, at, tilde = params
+    # roles by name, not by position
+    at_c = [p_ for p_ in params if re.search(r"(^|_)at(_|$)", p_)]
+    ti_c = [p_ for p_ in params if "tilde" in p_]
+    if len(at_c) == 1 and len(ti_c) == 1 and at_c != ti_c:
+        at, tilde = at_c[0], ti_c[0]
+        inp = [p_ for p_ in params if p_ not in (at, tilde)][0]
     fes = [m for m in method_calls(fi.body, "for_each") if m["args"] and m["args"][0]["k"] == "Closure"]
     mps = [m for m in method_calls(fi.body, "map") if m["args"] and m["args"][0]["k"] == "Closure" and re.search(r"\b" + re.escape(inp) + r"\b", render(m["recv"]))]
     if len(fes) == 1 and not mps:
@@ -115,8 +121,15 @@ def r2(chk):
 
     def mk():
         return Evaluator(repo, IMPL_FILES, opaque={"replace_tilde_or_at_in_expr"})
-    leaves = explore(mk, lambda ev: ev.run_fn(fi, ev.sym_params(fi)))
-    p = fi.params  # action, tilde_postfix, ctx
+    def args_(ev):
+        a = ev.sym_params(fi)
+        if "self" in a:  # quote_action as a method of the context: the receiver plays the role of `ctx`
+            a["self"] = SymObj("ctx", a["self"].ty)
+        return a
+    leaves = explore(mk, lambda ev: ev.run_fn(fi, args_(ev)))
+    p = [x for x in fi.params if x not in ("self", "ctx")]  # action, tilde_postfix
+    if len(p) != 2:
+        raise Inconclusive("quote_action: expected (action, tilde_postfix) besides the context")
     for lf in leaves:
         k = lf.get("ctx.kind")
         it = lf.get("ctx.impl_type")
@@ -265,6 +278,8 @@ def r3(chk):
             elif par["k"] == "MethodCall" and par["recv"] is cur and par["method"] in ("is_some", "is_none"):
                 chk.ok("R3", key, EXPAND, node["line"], detail="presence test")
             elif par["k"] == "Call" and par["func"]["k"] == "Path" and par["func"]["segs"][-1] == "quote_action":
+                chk.expect("R3", key, par["args"] and par["args"][0] is cur, EXPAND, node["line"], "user expression passed to quote_action in a non-expression position", found=render(par)[:80])
+            elif par["k"] == "MethodCall" and par["method"] == "quote_action" and par["recv"] is not cur:
                 chk.expect("R3", key, par["args"] and par["args"][0] is cur, EXPAND, node["line"], "user expression passed to quote_action in a non-expression position", found=render(par)[:80])
             elif par["k"] in ("Let", "LetExpr", "Match", "Tuple", "Arm"):
                 chk.ok("R3", key, EXPAND, node["line"], detail="bound to a tracked name / destructured")
